@@ -494,6 +494,8 @@ DEFAULT_CFG = {
     'api_fsm': False,  # api fsm: every FSM.change goes to the API process
     'refresh': True,  # route-refresh capability configured (outgoing ROUTE-REFRESH allowed)
     'extended': False,  # extended-message capability (False: maximum message size stays 4096)
+    'local_as_auto': False,  # `local-as auto`: our AS mirrors the peer's, the peer's OPEN is read before ours is written (outside M-Session)
+    'peer_as_auto': False,  # `peer-as auto`: any AS in the peer's OPEN is accepted (outside M-Session)
 }
 
 
@@ -569,6 +571,13 @@ class SessionRig:
             from exabgp.util.enumeration import TriState
 
             n.capability.extended_message = TriState.FALSE
+        if self.cfg['local_as_auto'] or self.cfg['peer_as_auto']:
+            from exabgp.bgp.message.open.asn import ASN
+
+            if self.cfg['local_as_auto']:
+                n.session.local_as = ASN(0)
+            if self.cfg['peer_as_auto']:
+                n.session.peer_as = ASN(0)
         self.neighbor = n
         self.nroutes = 0
         routes = [self._route() for _ in range(int(self.cfg['routes']))]
@@ -1233,8 +1242,16 @@ CONNECTED = ('CONNECT', 'OPENSENT', 'OPENCONFIRM', 'ESTABLISHED')
 OPENISH = ('open', 'openLow', 'openAs', 'openId0', 'openHold1')
 
 
-def oracle_c05(script: list[list], res: dict, rfc_table: set) -> list[tuple[str, str]]:
+def as_judged(script: list[list], cfg: dict | None) -> list[list]:
+    """With `peer-as auto` an OPEN carrying another AS than the configured one is a valid OPEN."""
+    if not (cfg or {}).get('peer_as_auto'):
+        return script
+    return [[ev[0], ev[1], 'open'] + ev[3:] if ev[0] == 'recv' and ev[2] == 'openAs' else ev for ev in script]
+
+
+def oracle_c05(script: list[list], res: dict, rfc_table: set, cfg: dict | None = None) -> list[tuple[str, str]]:
     """(rule, description) for every rule of C05 the observed trace breaks."""
+    script = as_judged(script, cfg)
     bad: list[tuple[str, str]] = []
     state = 'IDLE'
     open_sent: set[int] = set()  # connections on which we wrote our OPEN
@@ -1336,6 +1353,7 @@ def oracle_c10(script: list[list], res: dict, cfg: dict, error_class: Any) -> li
 
     Per bucket: which connection was in use and in which state when the event arrived (from the
     observed FSM changes and writes only), what ExaBGP then wrote on it, whether it closed it."""
+    script = as_judged(script, cfg)
     bad: list[tuple[str, str]] = []
     c = dict(DEFAULT_CFG)
     c.update(cfg or {})
@@ -1622,6 +1640,17 @@ def run_property(ctx: Any, prop: str, fault_weight: float) -> None:
         cases.append((script, cfg, origin, None))
     for script, cfg, origin in systematic_scripts():
         cases.append((script, cfg, 'systematic:' + origin, None))
+    # configurations M-Session does not model (the order of the two OPENs is another one with `local-as auto`):
+    # no step-by-step comparison; the observed trace is judged by the property's oracle and by the trace checker
+    # of the model (`chkAll`, Lemmas/SessionTrace.lean: what an accepted trace satisfies is proved in
+    # Lemmas/SessionCheck.lean) through `session chk`
+    pick = rng.randrange(4)
+    for k, (script, cfg, origin) in enumerate(systematic_scripts()):
+        if not cfg or set(cfg) <= {'routes', 'hold', 'passive'}:
+            for j, extra in enumerate(({'local_as_auto': True}, {'peer_as_auto': True})):
+                if quick and (k + j) % 4 != pick:
+                    continue  # a quarter of them per quick run (which quarter: the seed), all of them in thorough
+                cases.append((script, dict(cfg, **extra), 'outside-model:' + origin, 'outside'))
     if spec is not None:
         variants = [{}, {}, {'routes': 3}, {'routes': 3, 'hold': 9}, {'attempts': 1}, {'attempts': 3, 'routes': 1}, {'passive': True}, {'graceful': True, 'routes': 1}, {'hold': 3, 'routes': 1}, {'hold': 0}, {'hold': 180, 'peer_hold': 90}, {'api_forward': True}, {'api_forward': True, 'routes': 1}, {'api_changes': False}, {'api_changes': False, 'api_forward': True}]
         for i in range(n_random):
@@ -1663,6 +1692,21 @@ def run_property(ctx: Any, prop: str, fault_weight: float) -> None:
     seen: set = set()
     pending: dict = {}
     oracle = oracle_c05 if prop == 'C05' else oracle_c10
+    TRACE_ITEMS = ('fsm', 'send', 'close', 'up', 'down', 'reject')
+
+    def monitor(res: dict) -> list[tuple[str, str]]:
+        """The observed trace through the trace checker of the model (`session chk`, strict)."""
+        kept = [it for b in res['buckets'] for it in b if it.split(' ')[0] in TRACE_ITEMS]
+        if spec is None or not kept:
+            return []
+        verdict = spec.ask('session chk 1 ' + ';'.join(kept))
+        ctx.count('outside-model:' + verdict.split(' ')[0])
+        if verdict == 'accepted':
+            return []
+        if not verdict.startswith('refused'):
+            raise RigError(f'session chk: {verdict} on {kept}')
+        k = int(verdict.split(' ')[1])
+        return [('trace-checker', f'the trace checker of M-Session refuses "{kept[k]}" after {kept[max(0, k - 3):k]}')]
     for i in sorted(results):
         script, cfg, origin, model_b = cases[i]
         res = results[i]
@@ -1686,6 +1730,12 @@ def run_property(ctx: Any, prop: str, fault_weight: float) -> None:
             ctx.nontrivial([script, sorted(cfg.items())])
         ctx.sample({'origin': origin, 'cfg': cfg, 'script': script, 'observed': res['buckets']}, cap=3)
         mb = model_b if model_b is not None else model_out.get(i)
+        if mb == 'outside':
+            mb = None
+            ctx.count('outside-model')
+            for rule, what in monitor(res):
+                ctx.count('oracle-fail:' + rule)
+                pending.setdefault(signature(rule, what), []).append((script, cfg, what))
         if mb is not None:
             d = first_difference(script, res['buckets'], mb)
             if d is not None:
@@ -1693,7 +1743,7 @@ def run_property(ctx: Any, prop: str, fault_weight: float) -> None:
                 k, a, b = d
                 if len(ctx.disagreements) < 20:
                     ctx.disagreements.append(Disagreement('session', {'script': script[: k + 1], 'cfg': cfg, 'origin': origin}, b, a))
-        for rule, what in (oracle(script, res, rfc_table) if prop == 'C05' else oracle(script, res, cfg, error_class)):
+        for rule, what in (oracle(script, res, rfc_table, cfg) if prop == 'C05' else oracle(script, res, cfg, error_class)):
             ctx.count('oracle-fail:' + rule)
             pending.setdefault(signature(rule, what), []).append((script, cfg, what))
 
@@ -1701,7 +1751,10 @@ def run_property(ctx: Any, prop: str, fault_weight: float) -> None:
         r = run_case(cand, ccfg)
         if 'error' in r:
             return []
-        return oracle(cand, r, rfc_table) if prop == 'C05' else oracle(cand, r, ccfg, error_class)
+        found = oracle(cand, r, rfc_table, ccfg) if prop == 'C05' else oracle(cand, r, ccfg, error_class)
+        if ccfg.get('local_as_auto') or ccfg.get('peer_as_auto'):
+            found = found + monitor(r)
+        return found
 
     # one canonical (shrunk) case per kind of failure: the two shortest scripts of each kind are
     # shrunk, the smaller result is reported
@@ -1747,7 +1800,7 @@ def replay_file(path: str, prop: str) -> int:
         return 2
     for ev, b in zip(script, res['buckets']):
         print('  ', ev, '->', b)
-    found = oracle_c05(script, res, rfc_table) if prop == 'C05' else oracle_c10(script, res, cfg, error_class)
+    found = oracle_c05(script, res, rfc_table, cfg) if prop == 'C05' else oracle_c10(script, res, cfg, error_class)
     for rule, what in found:
         print('FAILS', rule, ':', what)
     model = run_model_batch([(script, cfg)])[0]
